@@ -239,6 +239,15 @@ Definition poly_comb : list v2 :=
 Definition poly_zig : list v2 := [(0, 0); (2, 2); (4, 0); (6, 2); (6, 4); (4, 2); (2, 4); (0, 2)].
 Definition poly_arrow_cw : list v2 := [(3, 5); (6, 0); (3, 1); (0, 0)].
 
+Definition poly_spiral : list v2 :=
+  [(0, 0); (8, 0); (8, 8); (0, 8); (0, 2); (5, 2); (5, 5); (3, 5); (3, 4); (4, 4); (4, 3); (1, 3);
+   (1, 7); (7, 7); (7, 1); (0, 1)].
+Definition poly_star : list v2 :=
+  [(4, 8); (3, 5); (0, 5); (2, 3); (1, 0); (4, 2); (7, 0); (6, 3); (8, 5); (5, 5)].
+
+Lemma pip_boxes2 : pip_box_check poly_spiral = true /\ pip_box_check poly_star = true.
+Proof. split; vm_compute; reflexivity. Qed.
+
 Lemma pip_boxes :
   pip_box_check poly_L = true /\ pip_box_check poly_U = true /\ pip_box_check poly_comb = true /\
   pip_box_check poly_zig = true /\ pip_box_check poly_arrow_cw = true.
@@ -257,6 +266,16 @@ Qed.
 
 (* the witness of the repaired defect: (3,2) is inside the L although it lies on the
    extension of the far edge (2,2)-(0,2) *)
+Lemma pip_nonconvex_boxes2 : forall poly,
+  In poly [poly_spiral; poly_star] ->
+  forall (x y : Z) (default : bool), (-2 <= x <= 8)%Z -> (-2 <= y <= 8)%Z ->
+    point_in_polygon default poly (inject_Z x, inject_Z y)
+    = match pip_ref poly (inject_Z x, inject_Z y) with None => default | Some b => b end.
+Proof.
+  intros poly Hin. apply pip_box_lift. destruct pip_boxes2 as (H1 & H2).
+  cbn [In] in Hin. destruct Hin as [<- | [<- | []]]; assumption.
+Qed.
+
 Lemma pip_L_far_edge : point_in_polygon false poly_L (3, 2) = true /\ pip_ref poly_L (3, 2) = Some true.
 Proof. split; vm_compute; reflexivity. Qed.
 
